@@ -277,6 +277,7 @@ def judge(circ, steps, results, states, msb, info=None, rhos=None):
 
     for idx, (op, tag) in enumerate(steps):
         k = op["k"]
+        info["_step"] = idx  # on failure: index of the step at which the mismatch was seen
         if k == "g":
             u = nsim.matrix(op["g"], [aval(a) for a in op.get("a", [])])
             br = [(w, nsim.apply(s, u, op["q"])) for w, s in br]
@@ -531,6 +532,81 @@ def signature(kind, circ):
     return kind + ":" + "+".join(names[:5] + sorted(af)[:3])
 
 
+def localise(circ, seed):
+    """Root-cause localisation on a minimised circuit: report the state after every operation and
+    take the first step at which emulator and reference disagree; the same with every angle
+    expression replaced by its value tells whether the angle arithmetic or the gate is at fault.
+    -> (kind, culprit op, angle_causal) | None"""
+    def instrument(c):
+        ops2 = []
+        live = set(range(c["n"]))
+        for op in c["ops"]:
+            ops2.append(op)
+            k = op["k"]
+            if k == "snap":
+                continue
+            if k in ("measure", "discard"):
+                live.discard(op["q"])
+            elif k in ("measure_array", "discard_array"):
+                live -= set(op["q"])
+            if live:
+                ops2.append({"k": "snap", "q": sorted(live), "loc": 1})
+        return dict(c, ops=ops2)
+
+    def first_bad(c2, verdict):
+        kind, _, info = verdict
+        if not kind or kind.startswith("__") or "_step" not in info:
+            return None
+        _, steps = plan(c2, 0)
+        for j in range(min(info["_step"], len(steps) - 1), -1, -1):
+            if steps[j][0]["k"] != "snap":
+                return kind, steps[j][0]
+        return None
+
+    c_expr = instrument(circ)
+    c_lit = instrument(simplify_angles(circ))
+    if c_lit == c_expr:
+        r = first_bad(c_expr, run_one(c_expr, seed))
+        return (r[0], r[1], False) if r else None
+    v_expr, v_lit = evaluate_batch([c_expr, c_lit], seed)
+    r = first_bad(c_lit, v_lit)
+    if r:
+        return r[0], r[1], False
+    r = first_bad(c_expr, v_expr)
+    return (r[0], r[1], True) if r else None
+
+
+def bucket_of(kind, circ, culprit, angle_causal=False):
+    """-> (bucket name, op names, angle features) ; a later failing circuit that contains these op
+    names and angle features is attributed to the same root cause without being minimised."""
+    if culprit is not None:
+        af = set()
+        for a in (culprit.get("a", []) if angle_causal else []):
+            f = set()
+            afeatures(a, f)
+            af |= {x for x in f if x not in ("angle:dyadic", "angle:float")}
+        # angle operators that survived minimisation (replacing the expression by its value makes
+        # the failure disappear) are the root cause rather than the gate they feed
+        names = set() if af else {op_name(culprit)}
+    else:
+        names, af = circ_features(circ)
+        names.discard("snap")
+    return kind + ":" + "+".join(sorted(names)[:5] + sorted(af)[:3]), names, af
+
+
+def angle_variants(e):
+    """Expressions obtained from e by replacing exactly one non-literal node by its value."""
+    out = []
+    if e[0] in ("lit", "frac"):
+        return out
+    out.append(["lit", aval(e)])
+    for i, x in enumerate(e):
+        if i > 0 and isinstance(x, list):
+            for v in angle_variants(x):
+                out.append(e[:i] + [v] + e[i + 1:])
+    return out
+
+
 def simplify_angles(circ, which=None):
     ops = []
     for i, op in enumerate(circ["ops"]):
@@ -579,6 +655,17 @@ def minimise(circ, seed, kind, deadline, clock):
         sa = simplify_angles(cur)
         if sa != cur:
             cands.append(("angles", None, sa))
+            nv = 0
+            for i, op in enumerate(cur["ops"]):
+                for j, ang in enumerate(op.get("a", [])):
+                    for v in angle_variants(ang)[1:]:  # [0] = whole expression, covered per op below
+                        if nv < 24:
+                            nv += 1
+                            ops = list(cur["ops"])
+                            ops[i] = dict(op, a=op["a"][:j] + [v] + op["a"][j + 1:])
+                            cands.append(("asub", None, dict(cur, ops=ops)))
+                if op.get("a") and any(x[0] not in ("lit", "frac") for x in op["a"]):
+                    cands.append(("aop", None, simplify_angles(cur, which=i)))
         dq = drop_unused_qubits(cur)
         if dq != cur:
             cands.append(("qubits", None, dq))
@@ -596,7 +683,8 @@ def minimise(circ, seed, kind, deadline, clock):
                 nxt = allc
         if nxt is None:
             # prefer dropping operations (last first), then angle / qubit simplification
-            order = sorted(good, key=lambda g: (g[0] != "drop", -(g[1] or 0)))
+            rank = {"drop": 0, "angles": 1, "aop": 2, "asub": 3, "qubits": 4}
+            order = sorted(good, key=lambda g: (rank[g[0]], -(g[1] or 0)))
             nxt = order[0][2]
         cur = nxt
     return cur
@@ -758,15 +846,15 @@ def worker(ctx):
     ctx.notes["tolerance"] = nsim.TOL
     strategy = strategies()
     pending = []
-    buckets = {}  # signature -> (names, angle features, kind)
+    buckets = {}  # bucket -> (op names, angle features) of minimised root causes
     shrink_spent = [0.0]
     SHRINK_CAP = ctx.budget_s * 0.4
     SHRINK_ONE = ctx.budget_s * 0.3
 
     def attribute(kind, circ):
         names, af = circ_features(circ)
-        for sig, (n2, a2, k2) in buckets.items():
-            if k2 == kind and n2 <= names and a2 <= af:
+        for sig, (n2, a2) in buckets.items():
+            if n2 <= names and a2 <= af:
                 return sig
         return None
 
@@ -811,10 +899,10 @@ def worker(ctx):
                         detail = d2
                     else:
                         small = normalise(c)
-                    names, af = circ_features(small)
-                    names.discard("snap")
-                    sig = signature(kind, small)
-                    buckets[sig] = (names, af, kind)
+                    loc = localise(small, seed)
+                    sig, names, af = (bucket_of(loc[0], small, loc[1], loc[2]) if loc
+                                      else bucket_of(kind, small, None))
+                    buckets[sig] = (names, af)
                 else:
                     sig = kind + ":unminimised"
             emit(sig, small, seed, detail)
@@ -829,7 +917,7 @@ def worker(ctx):
         fails = []
         for c, (kind, detail, info) in zip(circs, verdicts):
             nontriv, labels = classify(c)
-            labels |= set(info)
+            labels |= {x for x in info if not x.startswith("_")}
             if kind == "__unsupported__":
                 ctx.unsupported_case(detail[:120])
                 continue
